@@ -53,6 +53,10 @@ def warm(numba=False):
     import importlib
     import pkgutil
 
+    if "vector" not in sys.modules:
+        from . import sched as _sched
+
+        _sched.install_lock_seam()   # locks created by vector code become scheduler-aware
     import vector
 
     here = os.path.realpath(vector.__file__)
